@@ -87,8 +87,12 @@ def run_batch(ctx, games, model, tag, solos):
     nt = any(solos[n][True]["outcome"] != "ok" for n, _ in games) and any(solos[n][True]["outcome"] == "ok" for n, _ in games)
     ctx.case(inp if sum(len(g["players"]) for _, g in games) <= 40 else {"names": [n for n, _ in games], "tag": tag}, nt)
     try:
-        with quiet(), time_limit(30.0):
-            res = cr.run_games(d)
+        with quiet(), time_limit(30.0), impl.maybe_debug() as dbg:
+            if dbg:
+                with impl.coarse_clock():
+                    res = cr.run_games(d)
+            else:
+                res = cr.run_games(d)
     except Timeout:
         ctx.violation("batch-terminates", inp, {})
         return
@@ -123,6 +127,11 @@ def cmp_batch(expect, r):
             nos = "no solution" in x["msg"].lower()
             if nos != (m["msg"]["err"]["outcome"] == "ValueError:nosolution"):
                 return f"{e['key']}: error kind differs"
+            # the entry carries THE message of the first broken rule (order of the checks)
+            from props.c09 import category
+            cat, det = category(x["msg"]), m["msg"]["err"].get("detail", "")
+            if not nos and cat and cat != "empty" and not det.startswith(("min of empty", "max of empty")) and det and cat != det:
+                return f"{e['key']}: first reported rule: implementation '{cat}', model '{det}'"
         if kind == "solved":
             o = {"outcome": "ok", "res": [x["final_strategies"], x["reachability_strategies"], x["rewards"], x["probabilities"],
                                            x["n_iterations_reach"], x["n_iterations_rew"], x["prob_min_rew"], x["rew_min_reach"]]}
@@ -144,10 +153,15 @@ def pool(rng, quick):
     # malformed ones
     base = out[0][1]
     for mut in ("none-row", "bad-index", "neg-reward", "no-final", "short-rewards", "empty-row", "int-row", "float-row",
-                "bool-row", "str-row"):
+                "bool-row", "str-row", "two-defects"):
         h = copy.deepcopy(base)
         if mut == "none-row":
             h["transition_list"][0] = None
+        elif mut == "two-defects":
+            # a state without transitions BEFORE a state with an out-of-range successor
+            h["transition_list"][0] = None
+            lab, _ = h["transition_list"][-3][0]
+            h["transition_list"][-3][0] = (lab, len(h["players"]))
         elif mut == "bad-index":
             lab, _ = h["transition_list"][-3][0]
             h["transition_list"][-3][0] = (lab, len(h["players"]))
@@ -174,7 +188,7 @@ def solo_batch(g):
     """what running the game ALONE through run_games gives (both entries)"""
     cr = repo("conditionalrewards")
     try:
-        with quiet(), time_limit(20.0):
+        with quiet(), time_limit(20.0), impl.maybe_debug():
             return cr.run_games({"x": copy.deepcopy(g)})
     except BaseException as e:  # noqa
         return {"error": type(e).__name__}
@@ -220,7 +234,12 @@ def cli_batch(ctx, games):
     try:
         os.mkdir(os.path.join(d, "inputs"))
         os.mkdir(os.path.join(d, "outputs"))
-        text = "{\n" + ",\n".join(f"    {n!r}: {g!r}" for n, g in games) + "\n}\n"
+        def render(g):
+            s_ = repr(g)
+            # a hand-written input may use builtins: rewards written as list((..)) instead of [..]
+            return s_.replace("'rewards': [", "'rewards': list((", 1).replace("], 'players'", ",)), 'players'", 1) \
+                if isinstance(g.get("rewards"), list) and g["rewards"] and "'rewards': [" in s_ and "], 'players'" in s_ else s_
+        text = "{\n" + ",\n".join(f"    {n!r}: {render(g)}" for n, g in games) + "\n}\n"
         open(os.path.join(d, "inputs", "batch_1.py"), "w").write(text)
         p = subprocess.run([sys.executable, os.path.join(REPO, "conditionalrewards.py"), "-f", "inputs/batch_1.py", "-s"],
                            cwd=d, capture_output=True, text=True, timeout=120,
